@@ -716,10 +716,67 @@ func c12FirstIfIn(n ast.Node) *ast.IfStmt {
 	return found
 }
 
+
+// c12Nest emits the constructs that enclose the call of the callback inside goName, outermost first, as a typed
+// list: go statement, threading.GoSafe, threading.RunSafe, TaskRunner.Schedule, loop.
+func (e *emitter) c12Nest(s *source, rel, goName, lean, target string) {
+	fd := s.findFunc(rel, goName)
+	if fd == nil {
+		e.errors = append(e.errors, "function "+goName+" not found in "+rel)
+		e.printf("def %s : List Nest := []\n\n", lean)
+		return
+	}
+	var stack []ast.Node
+	var paths [][]string
+	ast.Inspect(fd.Body, func(n ast.Node) bool {
+		if n == nil {
+			stack = stack[:len(stack)-1]
+			return true
+		}
+		if call, ok := n.(*ast.CallExpr); ok && s.src(call.Fun) == target {
+			var path []string
+			for _, a := range stack {
+				switch x := a.(type) {
+				case *ast.GoStmt:
+					path = append(path, ".go")
+				case *ast.ForStmt, *ast.RangeStmt:
+					path = append(path, ".loop")
+				case *ast.CallExpr:
+					if _, lit := x.Fun.(*ast.FuncLit); lit {
+						continue
+					}
+					f := s.src(x.Fun)
+					switch {
+					case strings.Contains(f, "GoSafe"):
+						path = append(path, ".goSafe")
+					case strings.Contains(f, "RunSafe"):
+						path = append(path, ".runSafe")
+					case strings.HasSuffix(f, ".Schedule"):
+						path = append(path, ".schedule")
+					}
+				}
+			}
+			paths = append(paths, path)
+		}
+		stack = append(stack, n)
+		return true
+	})
+	if len(paths) != 1 {
+		e.errors = append(e.errors, fmt.Sprintf("%s: expected exactly one call of %s, found %d", goName, target, len(paths)))
+		e.printf("def %s : List Nest := []\n\n", lean)
+		return
+	}
+	e.printf("/-- what encloses the call of `%s` in `%s`, outermost first -/\ndef %s : List Nest := [%s]\n\n", target, goName, lean, strings.Join(paths[0], ", "))
+}
+
 func (e *emitter) c12Round5(s *source, t *translator) {
 	const ca = "core/collection/cache.go"
 	const cl = "core/stores/cache/cleaner.go"
 	e.printf("structure WheelCall where\n  fn : String\n  method : String\n  args : List String\n  detached : Bool\n  deferred : Bool\n  deriving Repr, DecidableEq\n\n")
+	e.printf("inductive Nest where\n  | go | goSafe | runSafe | schedule | loop\n  deriving Repr, DecidableEq\n\n")
+	e.c12Nest(s, "core/collection/timingwheel.go", "TimingWheel.runTasks", "runTasksNest", "tw.execute")
+	e.c12Nest(s, "core/collection/timingwheel.go", "TimingWheel.drainAll", "drainNest", "fn")
+	e.c12Nest(s, "core/collection/timingwheel.go", "TimingWheel.moveTask", "moveImmediateNest", "tw.execute")
 	e.c12WheelCalls(s, ca, "cacheWheelCalls")
 	e.c12WheelCalls(s, cl, "cleanerWheelCalls")
 	e.c12ForwardArgs(s, ca, "Cache.Set", "SetWithExpire", "cacheSetForward")
